@@ -467,7 +467,7 @@ class NP:
         if any(_isinstance(v, SC_TYPES) for v in flat):
             # numpy orders complex numbers by real part first: supported when every imaginary part is concretely zero
             cs = [v if _isinstance(v, SC_TYPES) else None for v in flat]
-            if any(c is not None and (c.im.sym or c.im.c != 0.0) for c in cs):
+            if any(c is not None and not ((not c.im.sym and c.im.c == 0.0) or ((c.im == 0) is True)) for c in cs):
                 raise PathEnd('unsupported', 'max/min of complex values with non-zero imaginary part')
             res = [c.re if c is not None else v for c, v in zip(cs, flat)]
             r = self._reduce_cmp(oarr(res), better, None, skipnan)
